@@ -320,6 +320,8 @@ def main():
             w1, w2 = rnd.choice(WRAP), rnd.choice(WRAP)
             v, kind = rnd.choice(list(VOL.items()))
             if w1.count('%s') == 1:
+                if w1 == 'MAX(0,%s)' and w2 == '-(%s)':
+                    continue        # MAX(0, -x) is 0 for every positive x: nothing to observe
                 inner = w2 % ((v,) * w2.count('%s'))
                 items.append(('=' + (w1 % inner), 1, kind))
     fres = []
